@@ -21,6 +21,7 @@ async fn chunk_input<T>(
     chunker_config: &chunker::Config,
     compression: Option<Compression>,
     temp_file_path: &std::path::Path,
+    force_create: bool,
     hash_length: usize,
     num_chunk_buffers: usize,
 ) -> Result<(
@@ -40,10 +41,12 @@ where
     let mut unique_chunk_index: usize = 0;
     let mut archive_chunks = Vec::new();
 
+    // As for the output, a file which is already there is only replaced when asked to.
     let mut temp_file = OpenOptions::new()
         .write(true)
-        .create(true)
-        .truncate(true)
+        .create(force_create)
+        .truncate(force_create)
+        .create_new(!force_create)
         .open(temp_file_path)
         .await
         .context(format!(
@@ -187,6 +190,7 @@ pub async fn compress_cmd(opts: Options) -> Result<()> {
                 &chunker_config,
                 compression,
                 &opts.temp_file,
+                opts.force_create,
                 opts.hash_length,
                 opts.num_chunk_buffers,
             )
@@ -198,6 +202,7 @@ pub async fn compress_cmd(opts: Options) -> Result<()> {
                 &chunker_config,
                 compression,
                 &opts.temp_file,
+                opts.force_create,
                 opts.hash_length,
                 opts.num_chunk_buffers,
             )
